@@ -159,7 +159,7 @@ def t_mul(*ts):
 def t_recip(t):
     if t[0] == "recip":
         return t[1]
-    if t[0] == "k" and isinstance(t[1], (int, Fraction)) and t[1] != 0:
+    if t[0] == "k" and isinstance(t[1], (int, Fraction)) and not isinstance(t[1], bool) and t[1] != 0:
         f = 1 / Fraction(t[1])
         return ("k", int(f) if f.denominator == 1 else f)
     if t[0] == "k" and isinstance(t[1], float) and t[1] in (1.0, -1.0):
@@ -311,7 +311,7 @@ class AArr:
     def __init__(self, axes, term, buf=None, view=False, dtype="float"):
         self.axes = tuple(axes)
         keys = [vkey(a) for a in self.axes if is_labelled(a)]
-        if len(keys) != len(set(keys)):
+        if len(keys) != len(set(keys)) and term is not None and free_vars(term):
             raise ModelAbort(f"array with two axes over the same items {self.axes}: outside the modelled class")
         self.term = term
         self.buf = buf if buf is not None else Buf("fresh")
@@ -616,9 +616,21 @@ def index_plan(a: AArr, idx):
             continue
         ax = src_axes[k]
         if isinstance(x, slice):
-            if x != slice(None) and not (x.start in (None, 0) and x.stop is None and x.step in (None, 1)):
-                raise ModelAbort(f"partial slice {x} on a labelled tensor")
-            per.append(("slice", k, None))
+            if x == slice(None) or (x.start in (None, 0) and x.stop is None and x.step in (None, 1)):
+                per.append(("slice", k, None))
+            else:
+                n_ax = axis_len(ax)
+                try:
+                    rng = range(*slice(*[None if v is None else int(v) for v in (x.start, x.stop, x.step)]).indices(n_ax))
+                except (TypeError, ValueError) as e:
+                    raise NumpyRaise("TypeError", f"slice indices: {e}")
+                pos = list(rng)
+                if pos == list(range(n_ax)):
+                    per.append(("slice", k, None))
+                elif not is_labelled(ax):
+                    per.append(("pslice", k, ("#", len(pos))))
+                else:
+                    per.append(("pslice", k, tuple(ax[p] for p in pos)))
         elif isinstance(x, bool):
             raise ModelAbort("boolean index")
         elif isinstance(x, int):
@@ -642,6 +654,11 @@ def index_plan(a: AArr, idx):
             ax = src_axes[sa]
             if is_labelled(ax):
                 m[vkey(ax)] = ("c", pay)
+    for kind, sa, pay in per:
+        if kind == "pslice" and is_labelled(src_axes[sa]):
+            if not pay:
+                raise ModelAbort("empty slice of a labelled axis")
+            m[vkey(src_axes[sa])] = ("v", vkey(pay))
     if not arrays:
         out = []
         for kind, sa, pay in per:
@@ -649,6 +666,8 @@ def index_plan(a: AArr, idx):
                 out.append(ONE)
             elif kind == "slice":
                 out.append(src_axes[sa])
+            elif kind == "pslice":
+                out.append(pay)
         return tuple(out), m, True
     lists = [i for i in arrays if per[i][0] == "list"]
     meshes = [i for i in arrays if per[i][0] == "mesh"]
@@ -682,7 +701,8 @@ def index_plan(a: AArr, idx):
             new = tuple(items)
             if len(set(new)) != len(new):
                 raise ModelAbort("index list selects an item twice")
-            m[vkey(ax)] = ("v", vkey(new))
+            if vkey(new) != vkey(ax):       # selecting every item (in any order) does not restrict the label variable
+                m[vkey(ax)] = ("v", vkey(new))
             baxes.append(new)
         else:
             baxes.append(("#", len(items)))
@@ -693,6 +713,8 @@ def index_plan(a: AArr, idx):
             basic_out.append((i, ONE))
         elif kind == "slice":
             basic_out.append((i, src_axes[sa]))
+        elif kind == "pslice":
+            basic_out.append((i, pay))
     if adjacent:
         before = [ax for i, ax in basic_out if i < adv[0]]
         after = [ax for i, ax in basic_out if i > adv[0]]
